@@ -25,7 +25,11 @@ type c20Case struct {
 	Prefix string // text before the root bracket
 	Mask   uint32 // bit i set: newline in the gap before token i (bit len(Toks): after the last token)
 	Inner  bool   // additionally a raw LF inside the first string token preceding the detection point
+	Style  int    // what a selected gap receives: index into c20GapStyles
 }
+
+// what a selected gap receives: a bare LF, LF after a filler character, a blank line, CRLF, LF followed by indentation
+var c20GapStyles = []string{"\n", " \n", "\n\n", "\r\n", "\n  "}
 
 var lineRe = regexp.MustCompile(`line (\d+)`)
 
@@ -35,7 +39,7 @@ func c20Text(k c20Case) (text string, detectOff int) {
 	innerDone := !k.Inner
 	for i, t := range k.Toks {
 		if k.Mask&(1<<uint(i)) != 0 {
-			sb.WriteByte('\n')
+			sb.WriteString(c20GapStyles[k.Style])
 		}
 		if i == k.Detect {
 			detectOff = sb.Len()
@@ -47,7 +51,7 @@ func c20Text(k c20Case) (text string, detectOff int) {
 		sb.WriteString(t)
 	}
 	if k.Mask&(1<<uint(len(k.Toks))) != 0 {
-		sb.WriteByte('\n')
+		sb.WriteString(c20GapStyles[k.Style])
 	}
 	return sb.String(), detectOff
 }
@@ -103,7 +107,7 @@ func c20Injections(v *spec.V, emit func(toks []string, detect int, kind string))
 	toks := jsonTokens(v, plainQuote, nil)
 	// structural role of every token: track container stack and expectation
 	type frame struct {
-		obj      bool
+		obj       bool
 		expectKey bool
 	}
 	var st []frame
@@ -161,11 +165,11 @@ var c20Keys = []string{"a", "b"}
 var c20Prefixes = []string{"", "\n", "x\n\ny ", "\n\n\n"}
 
 func runC20(c *ev.Ctx) {
-	nodes, maxGapsFull := 4, 11
+	nodes, maxGapsFull := 4, 8
 	if c.Thorough() {
-		nodes, maxGapsFull = 5, 14
+		nodes, maxGapsFull = 5, 12
 	}
-	c.Rule(fmt.Sprintf("skeletons = every tree with <= %d nodes, depth <= 3 over leaves {1,\"s\",true}, keys {a,b}; injections at every applicable token: unexpected character where a key must start (after '{' and after ','), wrong closer after a comma, unexpected character between key and colon, unexpected character after a nested value in an object, invalid literal (tru/nul/1x/-) terminated by its following delimiter; newline layouts = every subset of token gaps gets a LF when the document has <= %d gaps (else every layout with <= 3 LFs plus all-gaps), x 4 prefixes before the root bracket, x optional raw LF inside a preceding string; ParseFile reads the object-rooted texts from a temp file for the single-LF layouts. Expected line = 1 + number of LF bytes before the detection character in the whole input. Non-trivial = distinct text whose expected line is > 1.", nodes, maxGapsFull))
+	c.Rule(fmt.Sprintf("skeletons = every tree with <= %d nodes, depth <= 3 over leaves {1,\"s\",true}, keys {a,b}; injections at every applicable token: unexpected character where a key must start (after '{' and after ','), wrong closer after a comma, unexpected character between key and colon, unexpected character after a nested value in an object, invalid literal (tru/nul/1x/-) terminated by its following delimiter; newline layouts = every subset of token gaps is filled when the document has <= %d gaps (else every layout with <= 3 filled gaps plus all-gaps), each in 5 filling styles (LF, SP LF, LF LF, CR LF, LF SP SP), x 4 prefixes before the root bracket, x optional raw LF inside a preceding string; ParseFile reads the object-rooted texts from a temp file for the single-LF layouts. Expected line = 1 + number of LF bytes before the detection character in the whole input. Non-trivial = distinct text whose expected line is > 1.", nodes, maxGapsFull))
 	c.Assume("errors whose message cites no line are outside the statement; their number is reported as errors_without_line")
 	dir, err := os.MkdirTemp("/verif/.cache/tmp", "c20files")
 	if err != nil {
@@ -205,9 +209,14 @@ func runC20(c *ev.Ctx) {
 							inner = []bool{false, true}
 						}
 						for _, in := range inner {
-							if !emit(c20Case{Toks: toks, Detect: detect, Root: v.K, Kind: kind, Prefix: pre, Mask: m, Inner: in}) {
-								ok = false
-								return
+							for st := range c20GapStyles {
+								if m == 0 && st > 0 {
+									break // no gap selected: the style is irrelevant
+								}
+								if !emit(c20Case{Toks: toks, Detect: detect, Root: v.K, Kind: kind, Prefix: pre, Mask: m, Inner: in, Style: st}) {
+									ok = false
+									return
+								}
 							}
 						}
 					}
@@ -238,7 +247,7 @@ func runC20(c *ev.Ctx) {
 			c.Violate(ev.Violation{Sig: sig, Msg: msg, Witness: map[string]interface{}{"text": text, "detect_offset": off, "injection": k.Kind}}, func() string { _, s, _ := c20One(k, ""); return s })
 		}
 		// ParseFile for object-rooted texts, on layouts with at most one LF (file I/O is slow)
-		if k.Root == spec.Obj && k.Mask&(k.Mask-1) == 0 && !k.Inner {
+		if k.Root == spec.Obj && k.Mask&(k.Mask-1) == 0 && !k.Inner && k.Style <= 1 {
 			c.Eval(1)
 			path := filepath.Join(dir, fmt.Sprintf("w%d.json", w))
 			if msg, sig, _ := c20One(k, path); msg != "" {
